@@ -52,7 +52,7 @@ class _Helper:
         self.ok = self._inlinable(decos)
         body = [s for s in node.body if not (isinstance(s, ast.Expr) and isinstance(s.value, ast.Constant) and isinstance(s.value.value, str))]
         self.body = body
-        rets = [n for n in ast.walk(node) if isinstance(n, ast.Return)]
+        rets = [n for n in _walk_own(node, True) if isinstance(n, ast.Return)]
         self.n_returns = len(rets)
         self.single_expr = len(body) == 1 and isinstance(body[0], ast.Return) and body[0].value is not None
         self.final_return = bool(body) and isinstance(body[-1], ast.Return) and self.n_returns == 1
@@ -82,7 +82,9 @@ class _Helper:
         for x in ast.walk(n):
             if isinstance(x, (ast.Yield, ast.YieldFrom, ast.Global, ast.Nonlocal, ast.Await, ast.Lambda)):
                 return False
-            if isinstance(x, (ast.FunctionDef, ast.ClassDef)) and x is not n:
+            if isinstance(x, ast.ClassDef):
+                return False
+            if isinstance(x, ast.FunctionDef) and x is not n and (x.decorator_list or x.args.vararg or x.args.kwarg):
                 return False
             if isinstance(x, ast.Call) and isinstance(x.func, (ast.Name, ast.Attribute)) and (getattr(x.func, "id", None) == n.name or getattr(x.func, "attr", None) == n.name):
                 return False  # (possibly) recursive
@@ -99,6 +101,19 @@ class _Helper:
         return out
 
 
+def _walk_own(node: ast.AST, enter_root: bool = False):
+    """ast.walk that does not descend into nested function / class bodies (the nested def node itself is yielded)"""
+    todo = [node]
+    first = enter_root
+    while todo:
+        x = todo.pop()
+        yield x
+        if not first and isinstance(x, (ast.FunctionDef, ast.AsyncFunctionDef, ast.Lambda, ast.ClassDef)):
+            continue
+        first = False
+        todo.extend(ast.iter_child_nodes(x))
+
+
 def _assigned_names(node: ast.AST) -> Set[str]:
     out = set()
     for x in ast.walk(node):
@@ -106,6 +121,8 @@ def _assigned_names(node: ast.AST) -> Set[str]:
             out.add(x.id)
         elif isinstance(x, ast.arg):
             out.add(x.arg)
+        elif isinstance(x, ast.FunctionDef) and x is not node:
+            out.add(x.name)
     return out
 
 
@@ -121,6 +138,21 @@ class _Renamer(ast.NodeTransformer):
     def __init__(self, subst: Dict[str, ast.expr], rename: Dict[str, str]):
         self.subst = subst
         self.rename = rename
+
+    def visit_FunctionDef(self, node: ast.FunctionDef):
+        # a nested function: its own parameters and locals shadow the outer names; its name is an outer local
+        own = {a.arg for a in node.args.args + node.args.kwonlyargs + node.args.posonlyargs} | ({node.args.vararg.arg} if node.args.vararg else set()) | ({node.args.kwarg.arg} if node.args.kwarg else set())
+        for x in node.body:
+            own |= {n.id for n in ast.walk(x) if isinstance(n, ast.Name) and isinstance(n.ctx, (ast.Store, ast.Del))}
+        own -= {n_ for x in ast.walk(node) if isinstance(x, (ast.Nonlocal, ast.Global)) for n_ in x.names}
+        inner = _Renamer({k: v for k, v in self.subst.items() if k not in own}, {k: v for k, v in self.rename.items() if k not in own})
+        node.body = [inner.visit(x) for x in node.body]
+        node.args.defaults = [self.visit(d) for d in node.args.defaults]
+        node.args.kw_defaults = [self.visit(d) if d is not None else None for d in node.args.kw_defaults]
+        node.decorator_list = [self.visit(d) for d in node.decorator_list]
+        if node.name in self.rename:
+            node.name = self.rename[node.name]
+        return node
 
     def visit_Name(self, node: ast.Name):
         if node.id in self.subst and isinstance(node.ctx, ast.Load):
@@ -157,7 +189,43 @@ def _match_call(call: ast.Call, helpers: Dict[Tuple[Optional[str], str], _Helper
         h = helpers.get((f.value.id, f.attr))
         if h is not None and h.static:
             return h
+        c = _RECV.get(f.value.id)
+        if c is not None:
+            h = helpers.get((c, f.attr))
+            if h is not None and not h.static and h.node.args.args and h.node.args.args[0].arg == "self":
+                return h
     return None
+
+
+_RECV: Dict[str, str] = {}
+
+
+def _receiver_types(fn: ast.FunctionDef, helpers, cur_cls: Optional[str] = None) -> Dict[str, str]:
+    """local name -> class, for locals every binding of which is `Class(...)` or `<name>.<helper method of Class>(...)`
+    (the class is one with new helper methods)"""
+    classes = {c for (c, _) in helpers if c is not None}
+    is_classmethod = cur_cls is not None and any(ast.unparse(d) == "classmethod" for d in fn.decorator_list) and fn.args.args and fn.args.args[0].arg == "cls"
+    stores: Dict[str, int] = {}
+    for x in ast.walk(fn):
+        if isinstance(x, ast.Name) and isinstance(x.ctx, (ast.Store, ast.Del)):
+            stores[x.id] = stores.get(x.id, 0) + 1
+        elif isinstance(x, ast.arg):
+            stores[x.arg] = stores.get(x.arg, 0) + 100
+    cand: Dict[str, Set[str]] = {}
+    good: Dict[str, int] = {}
+    for x in ast.walk(fn):
+        if isinstance(x, ast.Assign) and len(x.targets) == 1 and isinstance(x.targets[0], ast.Name) and isinstance(x.value, ast.Call):
+            t, f = x.targets[0].id, x.value.func
+            if isinstance(f, ast.Name) and (f.id in classes or (f.id == "cls" and is_classmethod and cur_cls in classes)):
+                cand.setdefault(t, set()).add(cur_cls if f.id == "cls" else f.id)
+                good[t] = good.get(t, 0) + 1
+    out = {t: next(iter(cs)) for t, cs in cand.items() if len(cs) == 1}
+    for x in ast.walk(fn):
+        if isinstance(x, ast.Assign) and len(x.targets) == 1 and isinstance(x.targets[0], ast.Name) and isinstance(x.value, ast.Call):
+            t, f = x.targets[0].id, x.value.func
+            if t in out and isinstance(f, ast.Attribute) and isinstance(f.value, ast.Name) and out.get(f.value.id) == out[t] and (out[t], f.attr) in helpers:
+                good[t] = good.get(t, 0) + 1
+    return {t: c for t, c in out.items() if good.get(t, 0) == stores.get(t, 0)}
 
 
 _BASES: Dict[str, List[str]] = {}
@@ -279,7 +347,7 @@ def _tailify(stmts: List[ast.stmt], k) -> Optional[List[ast.stmt]]:
         if isinstance(st, ast.Return):
             out.extend(k(st.value))
             return out  # anything after a return is dead
-        has_ret = any(isinstance(x, ast.Return) for x in ast.walk(st))
+        has_ret = any(isinstance(x, ast.Return) for x in _walk_own(st))
         if not has_ret:
             out.append(st)
             continue
@@ -292,7 +360,7 @@ def _tailify(stmts: List[ast.stmt], k) -> Optional[List[ast.stmt]]:
                     return None
                 out.append(ast.If(test=st.test, body=b or [ast.Pass()], orelse=r))
                 return out
-            if rest and st.orelse and _always_returns(st.orelse) and not any(isinstance(x, ast.Return) for s2 in st.body for x in ast.walk(s2)):
+            if rest and st.orelse and _always_returns(st.orelse) and not any(isinstance(x, ast.Return) for s2 in st.body for x in _walk_own(s2)):
                 b = _tailify(st.body + rest, k)
                 o = _tailify(st.orelse, k)
                 if b is None or o is None:
@@ -319,9 +387,9 @@ def _tailify(stmts: List[ast.stmt], k) -> Optional[List[ast.stmt]]:
             out.append(ast.With(items=st.items, body=b or [ast.Pass()]))
             return out
         if isinstance(st, ast.Try) and not st.orelse:
-            if any(isinstance(x, ast.Return) for s2 in st.finalbody for x in ast.walk(s2)):
+            if any(isinstance(x, ast.Return) for s2 in st.finalbody for x in _walk_own(s2)):
                 return None
-            body_ret = any(isinstance(x, ast.Return) for s2 in st.body for x in ast.walk(s2))
+            body_ret = any(isinstance(x, ast.Return) for s2 in st.body for x in _walk_own(s2))
             if rest and not _always_returns([st]):
                 # `try: X = f() except E: return D` followed by more statements: the remainder moves into the try's
                 # else-position only when the try body itself has no return (exceptions of the remainder stay uncaught)
@@ -360,6 +428,9 @@ def _inline_in_function(fn: ast.FunctionDef, cur_cls: Optional[str], helpers, co
     changed = [False]
     caller_names = _assigned_names(fn)
 
+    _RECV.clear()
+    _RECV.update(_receiver_types(fn, helpers, cur_cls))
+
     def expand(call: ast.Call):
         h = _match_call(call, helpers, cur_cls)
         if h is None or not h.ok or h.node is fn:
@@ -367,6 +438,15 @@ def _inline_in_function(fn: ast.FunctionDef, cur_cls: Optional[str], helpers, co
         b = _bind(h, call, caller_names, counter)
         if b is None:
             return None
+        f = call.func
+        if isinstance(f, ast.Attribute) and isinstance(f.value, ast.Name) and f.value.id in _RECV and f.value.id not in ("self", "cls"):
+            # a method of a record class called on a local record: `self` is that local
+            pre, subst, rename = b
+            if any(isinstance(x, ast.Name) and x.id == "self" and isinstance(x.ctx, ast.Store) for x in ast.walk(h.node)):
+                return None
+            subst = dict(subst)
+            subst["self"] = ast.Name(id=f.value.id, ctx=ast.Load())
+            b = (pre, subst, rename)
         return h, b
 
     def rewrite_block(stmts: List[ast.stmt]) -> List[ast.stmt]:
@@ -415,7 +495,7 @@ def _inline_in_function(fn: ast.FunctionDef, cur_cls: Optional[str], helpers, co
                             return [ast.Assign(targets=copy.deepcopy(tgt_nodes), value=e if e is not None else ast.Constant(value=None))]
 
                         tb = _tailify(body, k)
-                        if tb is not None and not any(isinstance(x, ast.Return) for s2 in tb for x in ast.walk(s2)):
+                        if tb is not None and not any(isinstance(x, ast.Return) for s2 in tb for x in _walk_own(s2)):
                             out.extend(pre + (tb or [ast.Pass()]))
                             body = tb
                             done = True
@@ -463,6 +543,12 @@ def _inline_in_function(fn: ast.FunctionDef, cur_cls: Optional[str], helpers, co
             pre, subst, rename = b
             if pre:
                 return node  # would need a binding statement
+            f_ = node.func
+            if isinstance(f_, ast.Attribute) and isinstance(f_.value, ast.Name) and f_.value.id in _RECV and f_.value.id not in ("self", "cls"):
+                if any(isinstance(x, ast.Name) and x.id == "self" and isinstance(x.ctx, ast.Store) for x in ast.walk(h.node)):
+                    return node
+                subst = dict(subst)
+                subst["self"] = ast.Name(id=f_.value.id, ctx=ast.Load())
             used.add((h.cls, h.name))
             changed[0] = True
             return _Renamer(subst, rename).visit(_KwExpand(h.kwname, h.last_kwmap).visit(copy.deepcopy(h.body[0].value)))
@@ -560,9 +646,104 @@ def _namedtuple_table(tree: ast.Module) -> Dict[str, List[str]]:
                 elif isinstance(a, ast.Constant) and isinstance(a.value, str):
                     out[st.targets[0].id] = a.value.replace(",", " ").split()
         elif isinstance(st, ast.ClassDef) and any((isinstance(b, ast.Name) and b.id == "NamedTuple") or (isinstance(b, ast.Attribute) and b.attr == "NamedTuple") for b in st.bases):
-            if not any(isinstance(x, ast.FunctionDef) for x in st.body):
-                out[st.name] = [x.target.id for x in st.body if isinstance(x, ast.AnnAssign) and isinstance(x.target, ast.Name)]
+            # (methods of a record class are helpers of their own: a call that is left over blocks the scalar replacement)
+            out[st.name] = [x.target.id for x in st.body if isinstance(x, ast.AnnAssign) and isinstance(x.target, ast.Name)]
     return out
+
+
+def _inline_record_constants(tree: ast.Module, nts: Dict[str, List[str]]) -> bool:
+    """`x = CONST` with `CONST = NT(<literals>)` a module-level record constant -> `x = NT(<literals>)` (records are immutable)."""
+    consts: Dict[str, ast.Call] = {}
+    count: Dict[str, int] = {}
+    for st in tree.body:
+        if isinstance(st, ast.Assign):
+            for t in st.targets:
+                if isinstance(t, ast.Name):
+                    count[t.id] = count.get(t.id, 0) + 1
+    for st in tree.body:
+        if isinstance(st, ast.Assign) and len(st.targets) == 1 and isinstance(st.targets[0], ast.Name) and count.get(st.targets[0].id) == 1 and isinstance(st.value, ast.Call) \
+                and isinstance(st.value.func, ast.Name) and st.value.func.id in nts:
+            args = list(st.value.args) + [k.value for k in st.value.keywords]
+            if all(isinstance(a, ast.Constant) or (isinstance(a, ast.UnaryOp) and isinstance(a.operand, (ast.Constant, ast.Attribute, ast.Name))) or (isinstance(a, ast.Attribute) and _simple(a)) for a in args):
+                consts[st.targets[0].id] = st.value
+    if not consts:
+        return False
+    changed = False
+    for fn in ast.walk(tree):
+        if not isinstance(fn, ast.FunctionDef):
+            continue
+        local = _assigned_names(fn)
+        for x in ast.walk(fn):
+            if isinstance(x, ast.Assign) and isinstance(x.value, ast.Name) and x.value.id in consts and x.value.id not in local:
+                x.value = copy.deepcopy(consts[x.value.id])
+                changed = True
+    return changed
+
+
+def _record_ok(fn: ast.FunctionDef, r: str, rec_vars: Dict[str, str], nts: Dict[str, List[str]]):
+    """(every occurrence of the record variable r fits a replaceable pattern, list variables that collect r)"""
+    nt = rec_vars[r]
+    fields = nts[nt]
+    # list variables that receive r via append
+    lists = {x.func.value.id for x in ast.walk(fn) if isinstance(x, ast.Call) and isinstance(x.func, ast.Attribute) and x.func.attr == "append" and isinstance(x.func.value, ast.Name)
+             and len(x.args) == 1 and isinstance(x.args[0], ast.Name) and x.args[0].id == r}
+    ok = True
+    # classify every occurrence of r
+    parents = {}
+    for p_ in ast.walk(fn):
+        for c_ in ast.iter_child_nodes(p_):
+            parents[c_] = p_
+    for x in ast.walk(fn):
+        if isinstance(x, ast.Name) and x.id == r:
+            par = parents.get(x)
+            if isinstance(par, ast.Attribute) and par.value is x and (par.attr in fields or par.attr == "_replace"):
+                if par.attr == "_replace":
+                    call = parents.get(par)
+                    asg = parents.get(call)
+                    if not (isinstance(call, ast.Call) and call.func is par and not call.args and all(k.arg in fields for k in call.keywords)
+                            and isinstance(asg, ast.Assign) and len(asg.targets) == 1 and isinstance(asg.targets[0], ast.Name) and asg.targets[0].id == r):
+                        ok = False
+                continue
+            if isinstance(par, ast.Assign) and par.value is x and len(par.targets) == 1 and isinstance(par.targets[0], ast.Name) and rec_vars.get(par.targets[0].id) == nt and par.targets[0].id != r:
+                continue  # `q = r`: q is a record variable of the same group
+            if isinstance(par, ast.Assign) and x in par.targets:
+                v = par.value
+                if isinstance(v, ast.Name) and rec_vars.get(v.id) == nt and v.id != r and len(par.targets) == 1:
+                    continue  # `r = q`
+                if isinstance(v, ast.Call) and isinstance(v.func, ast.Name) and v.func.id == nt:
+                    if len(v.args) == 1 and isinstance(v.args[0], ast.Starred) and not v.keywords:
+                        continue
+                    if not any(isinstance(a, ast.Starred) for a in v.args) and len(v.args) + len(v.keywords) == len(fields) and all(k.arg in fields for k in v.keywords):
+                        # written out field by field: a later field must not read an earlier field of the old record
+                        vals_ = {f: a for f, a in zip(fields, v.args)}
+                        vals_.update({k.arg: k.value for k in v.keywords})
+                        for i_, f_ in enumerate(fields):
+                            for y in ast.walk(vals_[f_]):
+                                if isinstance(y, ast.Attribute) and isinstance(y.value, ast.Name) and y.value.id == r and y.attr in fields[:i_]:
+                                    ok = False
+                        continue
+                if isinstance(v, ast.Call) and isinstance(v.func, ast.Attribute) and v.func.attr == "_replace":
+                    continue
+                ok = False
+                continue
+            if isinstance(par, ast.Call) and isinstance(par.func, ast.Attribute) and par.func.attr == "append" and isinstance(par.func.value, ast.Name) and par.func.value.id in lists and isinstance(parents.get(par), ast.Expr):
+                continue
+            ok = False
+    # classify every occurrence of the list variables
+    for L in lists:
+        for x in ast.walk(fn):
+            if isinstance(x, ast.Name) and x.id == L:
+                par = parents.get(x)
+                if isinstance(par, ast.Assign) and x in par.targets and isinstance(par.value, ast.List) and not par.value.elts:
+                    continue
+                if isinstance(par, ast.Attribute) and par.attr == "append":
+                    continue
+                if isinstance(par, ast.comprehension) and par.iter is x and isinstance(par.target, ast.Name) and not par.ifs:
+                    lc = parents.get(par)
+                    if isinstance(lc, ast.ListComp) and len(lc.generators) == 1 and isinstance(lc.elt, ast.Attribute) and isinstance(lc.elt.value, ast.Name) and lc.elt.value.id == par.target.id and lc.elt.attr in fields:
+                        continue
+                ok = False
+    return ok, lists
 
 
 def _scalar_replace_records(fn: ast.FunctionDef, nts: Dict[str, List[str]]) -> bool:
@@ -588,57 +769,32 @@ def _scalar_replace_records(fn: ast.FunctionDef, nts: Dict[str, List[str]]) -> b
             rec_vars[x.targets[0].id] = x.value.func.id
     if not rec_vars:
         return False
+    # names bound to another record variable are record variables too
+    for _ in range(4):
+        for x in ast.walk(fn):
+            if isinstance(x, ast.Assign) and len(x.targets) == 1 and isinstance(x.targets[0], ast.Name) and isinstance(x.value, ast.Name) and x.value.id in rec_vars and x.targets[0].id not in rec_vars:
+                rec_vars[x.targets[0].id] = rec_vars[x.value.id]
     changed = False
+    # a record bound to another record (`r = q`) is replaced only together with it
+    partners: Dict[str, Set[str]] = {r: set() for r in rec_vars}
+    for x in ast.walk(fn):
+        if isinstance(x, ast.Assign) and len(x.targets) == 1 and isinstance(x.targets[0], ast.Name) and isinstance(x.value, ast.Name) and x.targets[0].id in rec_vars and x.value.id in rec_vars \
+                and rec_vars[x.targets[0].id] == rec_vars[x.value.id]:
+            partners[x.targets[0].id].add(x.value.id)
+            partners[x.value.id].add(x.targets[0].id)
+    if any(partners.values()):
+        # decide the whole alias group first (dry run of the classification below)
+        verdict = {r: _record_ok(fn, r, rec_vars, nts)[0] for r in rec_vars}
+        for _ in range(len(rec_vars) + 1):
+            for r in rec_vars:
+                if verdict[r] and any(not verdict[q] for q in partners[r]):
+                    verdict[r] = False
+        for r in list(rec_vars):
+            if not verdict[r]:
+                del rec_vars[r]
     for r, nt in list(rec_vars.items()):
         fields = nts[nt]
-        # list variables that receive r via append
-        lists = {x.func.value.id for x in ast.walk(fn) if isinstance(x, ast.Call) and isinstance(x.func, ast.Attribute) and x.func.attr == "append" and isinstance(x.func.value, ast.Name)
-                 and len(x.args) == 1 and isinstance(x.args[0], ast.Name) and x.args[0].id == r}
-        ok = True
-        # classify every occurrence of r
-        parents = {}
-        for p_ in ast.walk(fn):
-            for c_ in ast.iter_child_nodes(p_):
-                parents[c_] = p_
-        for x in ast.walk(fn):
-            if isinstance(x, ast.Name) and x.id == r:
-                par = parents.get(x)
-                if isinstance(par, ast.Attribute) and par.value is x and (par.attr in fields or par.attr == "_replace"):
-                    if par.attr == "_replace":
-                        call = parents.get(par)
-                        asg = parents.get(call)
-                        if not (isinstance(call, ast.Call) and call.func is par and not call.args and all(k.arg in fields for k in call.keywords)
-                                and isinstance(asg, ast.Assign) and len(asg.targets) == 1 and isinstance(asg.targets[0], ast.Name) and asg.targets[0].id == r):
-                            ok = False
-                    continue
-                if isinstance(par, ast.Assign) and x in par.targets:
-                    v = par.value
-                    if isinstance(v, ast.Call) and isinstance(v.func, ast.Name) and v.func.id == nt:
-                        if len(v.args) == 1 and isinstance(v.args[0], ast.Starred) and not v.keywords:
-                            continue
-                        if not any(isinstance(a, ast.Starred) for a in v.args) and len(v.args) + len(v.keywords) == len(fields) and all(k.arg in fields for k in v.keywords):
-                            continue
-                    if isinstance(v, ast.Call) and isinstance(v.func, ast.Attribute) and v.func.attr == "_replace":
-                        continue
-                    ok = False
-                    continue
-                if isinstance(par, ast.Call) and isinstance(par.func, ast.Attribute) and par.func.attr == "append" and isinstance(par.func.value, ast.Name) and par.func.value.id in lists and isinstance(parents.get(par), ast.Expr):
-                    continue
-                ok = False
-        # classify every occurrence of the list variables
-        for L in lists:
-            for x in ast.walk(fn):
-                if isinstance(x, ast.Name) and x.id == L:
-                    par = parents.get(x)
-                    if isinstance(par, ast.Assign) and x in par.targets and isinstance(par.value, ast.List) and not par.value.elts:
-                        continue
-                    if isinstance(par, ast.Attribute) and par.attr == "append":
-                        continue
-                    if isinstance(par, ast.comprehension) and par.iter is x and isinstance(par.target, ast.Name) and not par.ifs:
-                        lc = parents.get(par)
-                        if isinstance(lc, ast.ListComp) and len(lc.generators) == 1 and isinstance(lc.elt, ast.Attribute) and isinstance(lc.elt.value, ast.Name) and lc.elt.value.id == par.target.id and lc.elt.attr in fields:
-                            continue
-                    ok = False
+        ok, lists = _record_ok(fn, r, rec_vars, nts)
         if not ok:
             continue
 
@@ -681,6 +837,14 @@ def _scalar_replace_records(fn: ast.FunctionDef, nts: Dict[str, List[str]]) -> b
                             vals.update({k.arg: k.value for k in v.keywords})
                             for f in fields:
                                 out.append(ast.Assign(targets=[ast.Name(id=nm(r, f), ctx=ast.Store())], value=Rw().visit(vals[f])))
+                        continue
+                    if t == r and isinstance(v, ast.Name) and rec_vars.get(v.id) == nt:
+                        for f in fields:
+                            out.append(ast.Assign(targets=[ast.Name(id=nm(r, f), ctx=ast.Store())], value=ast.Attribute(value=ast.Name(id=v.id, ctx=ast.Load()), attr=f, ctx=ast.Load())))
+                        continue
+                    if t != r and rec_vars.get(t) == nt and isinstance(v, ast.Name) and v.id == r:
+                        # `q = r` seen while r is being replaced: q is not yet replaced -> q = NT(r__a, r__b)
+                        out.append(ast.Assign(targets=[ast.Name(id=t, ctx=ast.Store())], value=ast.Call(func=ast.Name(id=nt, ctx=ast.Load()), args=[ast.Name(id=nm(r, f), ctx=ast.Load()) for f in fields], keywords=[])))
                         continue
                     if t == r and isinstance(v, ast.Call) and isinstance(v.func, ast.Attribute) and v.func.attr == "_replace":
                         for k in v.keywords:
@@ -796,6 +960,76 @@ def _inline_local_closures(fn: ast.FunctionDef) -> bool:
             continue
         changed = True
         ast.fix_missing_locations(fn)
+    return changed
+
+
+def _beta_reduce_local_functions(fn: ast.FunctionDef) -> bool:
+    """A local function that is a single expression of its parameters,
+
+        def g(a, b): return E          g = lambda a, b: E
+
+    and is only ever called directly with plain positional arguments is written out at its call sites (E with the
+    arguments substituted), provided no free variable of E is re-bound after the definition."""
+    changed = False
+    for _ in range(6):
+        cands = []
+        for holder in ast.walk(fn):
+            for fld in ("body", "orelse", "finalbody"):
+                sub = getattr(holder, fld, None)
+                if not (isinstance(sub, list) and sub and isinstance(sub[0], ast.stmt)):
+                    continue
+                if isinstance(holder, (ast.FunctionDef, ast.ClassDef)) and holder is not fn:
+                    continue
+                for st in sub:
+                    if isinstance(st, ast.FunctionDef) and not st.decorator_list and not st.args.vararg and not st.args.kwarg and not st.args.kwonlyargs and not st.args.defaults:
+                        body = [b for b in st.body if not (isinstance(b, ast.Expr) and isinstance(b.value, ast.Constant))]
+                        if len(body) == 1 and isinstance(body[0], ast.Return) and body[0].value is not None:
+                            cands.append((sub, st, st.name, [a.arg for a in st.args.args], body[0].value))
+                    elif isinstance(st, ast.Assign) and len(st.targets) == 1 and isinstance(st.targets[0], ast.Name) and isinstance(st.value, ast.Lambda):
+                        la = st.value.args
+                        if not (la.vararg or la.kwarg or la.kwonlyargs or la.defaults):
+                            cands.append((sub, st, st.targets[0].id, [a.arg for a in la.args], st.value.body))
+        done_one = False
+        for (block, st, g, params, E) in cands:
+            if any(isinstance(x, (ast.Lambda, ast.ListComp, ast.SetComp, ast.DictComp, ast.GeneratorExp, ast.NamedExpr, ast.Yield, ast.Await)) for x in ast.walk(E)):
+                continue
+            stores = [x for x in ast.walk(fn) if (isinstance(x, ast.Name) and x.id == g and isinstance(x.ctx, ast.Store)) or (isinstance(x, ast.FunctionDef) and x.name == g and x is not fn)]
+            if len(stores) != 1:
+                continue
+            refs = [x for x in ast.walk(fn) if isinstance(x, ast.Name) and x.id == g and isinstance(x.ctx, ast.Load)]
+            calls = [x for x in ast.walk(fn) if isinstance(x, ast.Call) and isinstance(x.func, ast.Name) and x.func.id == g and not x.keywords and len(x.args) == len(params)
+                     and not any(isinstance(a, ast.Starred) for a in x.args)]
+            if not calls or len(refs) != len(calls) or any(y is c for c in calls for y in ast.walk(st)):
+                continue
+            uses = {p_: sum(1 for x in ast.walk(E) if isinstance(x, ast.Name) and x.id == p_) for p_ in params}
+            if any(not _simple(a) and uses[p_] > 1 for c in calls for p_, a in zip(params, c.args)):
+                continue
+            free = {x.id for x in ast.walk(E) if isinstance(x, ast.Name)} - set(params)
+            def_pos = (getattr(st, "lineno", 0), getattr(st, "col_offset", 0))
+            rebound = [x for x in ast.walk(fn) if isinstance(x, ast.Name) and isinstance(x.ctx, (ast.Store, ast.Del)) and x.id in free
+                       and (getattr(x, "lineno", 0), getattr(x, "col_offset", 0)) > def_pos and not any(x is y for y in ast.walk(st))]
+            if rebound:
+                continue
+            # the call sites must see the caller's bindings of the free variables: not inside a nested scope that shadows them
+            callset = {id(c) for c in calls}
+
+            class Sub(ast.NodeTransformer):
+                def visit_Call(self, node):
+                    node = self.generic_visit(node)
+                    if id(node) in callset:
+                        return ast.copy_location(_Renamer(dict(zip(params, node.args)), {}).visit(copy.deepcopy(E)), node)
+                    return node
+
+            Sub().visit(fn)
+            block.remove(st)
+            if not block:
+                block.append(ast.Pass())
+            ast.fix_missing_locations(fn)
+            changed = True
+            done_one = True
+            break
+        if not done_one:
+            break
     return changed
 
 
@@ -939,12 +1173,17 @@ def _split_tuple_assigns(fn: ast.FunctionDef) -> bool:
                 if isinstance(sub, list) and sub and isinstance(sub[0], ast.stmt) and not isinstance(st, (ast.FunctionDef, ast.ClassDef)):
                     setattr(st, fld, rewrite(sub))
             if isinstance(st, ast.Assign) and len(st.targets) == 1 and isinstance(st.targets[0], ast.Tuple) and isinstance(st.value, (ast.Tuple, ast.List)) \
-                    and len(st.targets[0].elts) == len(st.value.elts) and all(isinstance(t, ast.Name) for t in st.targets[0].elts):
-                tg = [t.id for t in st.targets[0].elts]
+                    and len(st.targets[0].elts) == len(st.value.elts) \
+                    and all(isinstance(t, ast.Name) or (isinstance(t, ast.Attribute) and isinstance(t.value, ast.Name)) for t in st.targets[0].elts):
+                tg = [t.id if isinstance(t, ast.Name) else ast.unparse(t) for t in st.targets[0].elts]
                 ok = True
                 for i, v in enumerate(st.value.elts):
                     used = {x.id for x in ast.walk(v) if isinstance(x, ast.Name)}
                     if used & set(tg[:i]):
+                        ok = False
+                    # an attribute target assigned earlier: the later element must not be able to observe the object
+                    bases = {t.value.id for t in st.targets[0].elts[:i] if isinstance(t, ast.Attribute)}
+                    if bases and not _simple(v) and (used & bases):
                         ok = False
                 if ok and len(set(tg)) == len(tg):
                     for t, v in zip(st.targets[0].elts, st.value.elts):
@@ -988,6 +1227,730 @@ def _none_guard_assigns(fn: ast.FunctionDef) -> bool:
     return changed[0]
 
 
+def _expand_ifexp_assigns(fn: ast.FunctionDef) -> bool:
+    """`t = A if C else B`  ->  `if C: t = A` / `else: t = B` (a branch `t = t` is dropped)."""
+    changed = [False]
+
+    def rewrite(stmts):
+        out = []
+        for st in stmts:
+            for fld in ("body", "orelse", "finalbody"):
+                sub = getattr(st, fld, None)
+                if isinstance(sub, list) and sub and isinstance(sub[0], ast.stmt) and not isinstance(st, (ast.FunctionDef, ast.ClassDef)):
+                    setattr(st, fld, rewrite(sub))
+            if isinstance(st, ast.Try):
+                for hd in st.handlers:
+                    hd.body = rewrite(hd.body)
+            if isinstance(st, ast.Assign) and len(st.targets) == 1 and isinstance(st.targets[0], ast.Name) and isinstance(st.value, ast.IfExp):
+                t = st.targets[0].id
+                v = st.value
+
+                def branch(e):
+                    if isinstance(e, ast.Name) and e.id == t:
+                        return []
+                    return rewrite([ast.copy_location(ast.Assign(targets=[ast.Name(id=t, ctx=ast.Store())], value=e), st)])
+
+                a, b = branch(v.body), branch(v.orelse)
+                if not a and not b:
+                    out.append(st)
+                    continue
+                out.append(ast.copy_location(ast.If(test=v.test, body=a or [ast.Pass()], orelse=b), st))
+                changed[0] = True
+                continue
+            out.append(st)
+        return out
+
+    fn.body = rewrite(fn.body)
+    return changed[0]
+
+
+def _coalesce_phi(fn: ast.FunctionDef) -> bool:
+    """`x = ...; if C: t = x` / `else: t = E` with `x` used nowhere else and `t` defined only here: `t` is `x` with one
+    branch overwritten  ->  `if C: pass` / `else: x = E`, `t` renamed to `x`."""
+    changed = False
+    for _ in range(8):
+        stores: Dict[str, int] = {}
+        loads: Dict[str, List[ast.Name]] = {}
+        for n in ast.walk(fn):
+            if isinstance(n, ast.Name):
+                if isinstance(n.ctx, ast.Store):
+                    stores[n.id] = stores.get(n.id, 0) + 1
+                elif isinstance(n.ctx, ast.Load):
+                    loads.setdefault(n.id, []).append(n)
+            elif isinstance(n, ast.arg):
+                stores[n.arg] = stores.get(n.arg, 0) + 2
+        hit = None
+
+        def scan(stmts):
+            nonlocal hit
+            for i, st in enumerate(stmts):
+                if hit:
+                    return
+                if isinstance(st, ast.If) and len(st.body) == 1 and len(st.orelse) == 1 and all(
+                        isinstance(b, ast.Assign) and len(b.targets) == 1 and isinstance(b.targets[0], ast.Name) for b in (st.body[0], st.orelse[0])) \
+                        and st.body[0].targets[0].id == st.orelse[0].targets[0].id:
+                    t = st.body[0].targets[0].id
+                    for keep, other in ((st.body[0], st.orelse[0]), (st.orelse[0], st.body[0])):
+                        if isinstance(keep.value, ast.Name) and keep.value.id != t:
+                            x = keep.value.id
+                            if stores.get(t, 0) != 2 or stores.get(x, 0) != 1:
+                                continue
+                            allowed = {id(n) for n in ast.walk(st.test)} | {id(keep.value)} | {id(n) for n in ast.walk(other.value)}
+                            if any(id(n) not in allowed for n in loads.get(x, [])):
+                                continue
+                            # x's store is an earlier statement of this block, and nothing in between reads t
+                            j = next((k for k in range(i - 1, -1, -1) if any(isinstance(n, ast.Name) and n.id == x and isinstance(n.ctx, ast.Store) for n in ast.walk(stmts[k]))), None)
+                            if j is None or any(isinstance(n, ast.Name) and n.id == t for k in range(j, i) for n in ast.walk(stmts[k])):
+                                continue
+                            hit = (st, keep, other, t, x)
+                            return
+                for fld in ("body", "orelse", "finalbody"):
+                    sub = getattr(st, fld, None)
+                    if isinstance(sub, list) and sub and isinstance(sub[0], ast.stmt) and not isinstance(st, (ast.FunctionDef, ast.ClassDef)):
+                        scan(sub)
+                if isinstance(st, ast.Try):
+                    for hd in st.handlers:
+                        scan(hd.body)
+
+        scan(fn.body)
+        if not hit:
+            break
+        st, keep, other, t, x = hit
+        other.targets[0].id = x
+        if keep is st.body[0]:
+            st.body = [ast.Pass()]
+        else:
+            st.orelse = []
+        for n in ast.walk(fn):
+            if isinstance(n, ast.Name) and n.id == t:
+                n.id = x
+        changed = True
+    return changed
+
+
+def _is_empty_literal(e: ast.expr) -> bool:
+    return (isinstance(e, (ast.Tuple, ast.List, ast.Set)) and not e.elts) or (isinstance(e, ast.Call) and isinstance(e.func, ast.Name) and e.func.id in ("tuple", "list", "set", "frozenset") and not e.args and not e.keywords)
+
+
+def _negate(t: ast.expr) -> ast.expr:
+    if isinstance(t, ast.Compare) and len(t.ops) == 1:
+        flip = {ast.Is: ast.IsNot, ast.IsNot: ast.Is, ast.Eq: ast.NotEq, ast.NotEq: ast.Eq, ast.In: ast.NotIn, ast.NotIn: ast.In}
+        for a, b in flip.items():
+            if isinstance(t.ops[0], a):
+                return ast.Compare(left=t.left, ops=[b()], comparators=t.comparators)
+    if isinstance(t, ast.UnaryOp) and isinstance(t.op, ast.Not):
+        return t.operand
+    return ast.UnaryOp(op=ast.Not(), operand=t)
+
+
+def _guard_empty_iter_loops(fn: ast.FunctionDef) -> bool:
+    """`for t in (() if C else X): BODY` -> `if not C: for t in X: BODY`;  `return A if C else B` -> `if C: return A` / `return B`;
+    `s = {*a, *(() if C else b), c}` -> `s = set(); s.update(a); if not C: s.update(b); s.add(c)`."""
+    changed = [False]
+
+    def rewrite(stmts):
+        out = []
+        for st in stmts:
+            for fld in ("body", "orelse", "finalbody"):
+                sub = getattr(st, fld, None)
+                if isinstance(sub, list) and sub and isinstance(sub[0], ast.stmt) and not isinstance(st, (ast.FunctionDef, ast.ClassDef)):
+                    setattr(st, fld, rewrite(sub))
+            if isinstance(st, ast.Try):
+                for hd in st.handlers:
+                    hd.body = rewrite(hd.body)
+            if isinstance(st, ast.For) and not st.orelse and isinstance(st.iter, ast.IfExp) and (_is_empty_literal(st.iter.body) or _is_empty_literal(st.iter.orelse)):
+                ie = st.iter
+                if _is_empty_literal(ie.body):
+                    test, it = _negate(ie.test), ie.orelse
+                else:
+                    test, it = ie.test, ie.body
+                st.iter = it
+                out.append(ast.copy_location(ast.If(test=test, body=[st], orelse=[]), st))
+                changed[0] = True
+                continue
+            if isinstance(st, ast.Return) and isinstance(st.value, ast.IfExp):
+                ie = st.value
+                out.append(ast.copy_location(ast.If(test=ie.test, body=[ast.copy_location(ast.Return(value=ie.body), st)], orelse=[]), st))
+                out.extend(rewrite([ast.copy_location(ast.Return(value=ie.orelse), st)]))
+                changed[0] = True
+                continue
+            if isinstance(st, ast.Assign) and len(st.targets) == 1 and isinstance(st.targets[0], ast.Name) and isinstance(st.value, ast.Set) and any(isinstance(e, ast.Starred) for e in st.value.elts):
+                t = st.targets[0].id
+                if not any(isinstance(n, ast.Name) and n.id == t for n in ast.walk(st.value)):
+                    out.append(ast.copy_location(ast.Assign(targets=[ast.Name(id=t, ctx=ast.Store())], value=ast.Call(func=ast.Name(id="set", ctx=ast.Load()), args=[], keywords=[])), st))
+                    for e in st.value.elts:
+                        def call(meth, arg):
+                            return ast.copy_location(ast.Expr(value=ast.Call(func=ast.Attribute(value=ast.Name(id=t, ctx=ast.Load()), attr=meth, ctx=ast.Load()), args=[arg], keywords=[])), st)
+                        if isinstance(e, ast.Starred):
+                            v = e.value
+                            if isinstance(v, ast.IfExp) and (_is_empty_literal(v.body) or _is_empty_literal(v.orelse)):
+                                if _is_empty_literal(v.body):
+                                    test, x = _negate(v.test), v.orelse
+                                else:
+                                    test, x = v.test, v.body
+                                out.append(ast.copy_location(ast.If(test=test, body=[call("update", x)], orelse=[]), st))
+                            else:
+                                out.append(call("update", v))
+                        else:
+                            out.append(call("add", e))
+                    changed[0] = True
+                    continue
+            out.append(st)
+        return out
+
+    fn.body = rewrite(fn.body)
+    return changed[0]
+
+
+# ---------------------------------------------------------------------------
+# generators, context managers, hoisting of nested helper calls (pre-passes)
+# ---------------------------------------------------------------------------
+
+def _new_functions(tree: ast.Module, modname: str, table: Set[str]):
+    """(class name or None, FunctionDef) for every top-level function / method that is not in the reference table"""
+    out = []
+    for st in tree.body:
+        if isinstance(st, ast.FunctionDef) and _qual(modname, None, st.name) not in table:
+            out.append((None, st))
+        elif isinstance(st, ast.ClassDef):
+            for x in st.body:
+                if isinstance(x, ast.FunctionDef) and _qual(modname, st.name, x.name) not in table and not (x.name.startswith("__") and x.name.endswith("__")):
+                    out.append((st.name, x))
+    return out
+
+
+def _own_yields(fn: ast.FunctionDef) -> List[ast.AST]:
+    out = []
+
+    def visit(n):
+        for ch in ast.iter_child_nodes(n):
+            if isinstance(ch, (ast.FunctionDef, ast.Lambda, ast.ClassDef)):
+                continue
+            if isinstance(ch, (ast.Yield, ast.YieldFrom)):
+                out.append(ch)
+            visit(ch)
+
+    visit(fn)
+    return out
+
+
+def _simple_params(fn: ast.FunctionDef, is_method: bool) -> Optional[List[str]]:
+    a = fn.args
+    if a.vararg or a.kwarg or a.posonlyargs or a.kwonlyargs:
+        return None
+    ps = [x.arg for x in a.args]
+    if is_method and ps and ps[0] in ("self", "cls") and not any(ast.unparse(d) == "staticmethod" for d in fn.decorator_list):
+        ps = ps[1:]
+    return ps
+
+
+def _bind_simple(fn: ast.FunctionDef, params: List[str], call: ast.Call, tag: str, caller_names: Set[str]):
+    """(pre statements, renamer) for inlining fn's body at `call`; None when the call shape is not supported"""
+    if any(isinstance(a, ast.Starred) for a in call.args) or any(k.arg is None for k in call.keywords) or len(call.args) > len(params):
+        return None
+    defaults = [None] * (len(params) - len(fn.args.defaults)) + list(fn.args.defaults) if len(fn.args.defaults) <= len(params) else [None] * len(params)
+    actual = dict(zip(params, call.args))
+    for k in call.keywords:
+        if k.arg not in params or k.arg in actual:
+            return None
+        actual[k.arg] = k.value
+    for p_, d in zip(params, defaults):
+        if p_ not in actual:
+            if d is None:
+                return None
+            actual[p_] = d
+    assigned = set()
+    for st in fn.body:
+        assigned |= _assigned_names(st)
+    pre, subst, rename = [], {}, {}
+    for p_ in params:
+        a = actual[p_]
+        if _simple(a) and p_ not in assigned:
+            subst[p_] = a
+        else:
+            new = p_ + tag
+            rename[p_] = new
+            pre.append(ast.Assign(targets=[ast.Name(id=new, ctx=ast.Store())], value=copy.deepcopy(a)))
+    for nm in assigned:
+        if nm not in params and nm in caller_names:
+            rename[nm] = nm + tag
+    return pre, _Renamer(subst, rename)
+
+
+def _call_name(call: ast.Call, cur_cls: Optional[str]):
+    """(class or None, name) of a call `f(...)`, `self.f(...)`, `cls.f(...)`, `Class.f(...)`"""
+    f = call.func
+    if isinstance(f, ast.Name):
+        return (None, f.id)
+    if isinstance(f, ast.Attribute) and isinstance(f.value, ast.Name):
+        if f.value.id in ("self", "cls"):
+            return (cur_cls, f.attr)
+        return (f.value.id, f.attr)
+    return (None, None)
+
+
+def _inline_generators(tree: ast.Module, modname: str, table: Set[str]) -> List[str]:
+    """`for T in g(args): BODY` with g a new, simple generator: g's body is written out with every `yield E`
+    replaced by `T = E; BODY` (BODY without break / continue of that loop)."""
+    gens = {}
+    for (cls, fn) in _new_functions(tree, modname, table):
+        ys = _own_yields(fn)
+        if not ys or any(isinstance(y, ast.YieldFrom) for y in ys):
+            continue
+        if any(d for d in fn.decorator_list if ast.unparse(d) not in ("staticmethod",)):
+            continue
+        # every yield is a statement of its own; no `return value`; no nested defs; not recursive
+        stmts_ok = all(any(isinstance(x, ast.Expr) and x.value is y for x in ast.walk(fn)) for y in ys)
+        if not stmts_ok or any(isinstance(x, ast.Return) for x in ast.walk(fn)) or any(isinstance(x, (ast.FunctionDef, ast.Lambda)) and x is not fn for x in ast.walk(fn)):
+            continue
+        ps = _simple_params(fn, cls is not None)
+        if ps is None:
+            continue
+        gens[(cls, fn.name)] = (fn, ps)
+    done: List[str] = []
+    if not gens:
+        return done
+    counter = [0]
+
+    def top_level_jump(body) -> bool:
+        def visit(n, in_loop):
+            for ch in ast.iter_child_nodes(n):
+                if isinstance(ch, (ast.FunctionDef, ast.Lambda, ast.ClassDef)):
+                    continue
+                if isinstance(ch, (ast.Break, ast.Continue)) and not in_loop:
+                    return True
+                if visit(ch, in_loop or isinstance(ch, (ast.For, ast.While))):
+                    return True
+            return False
+        return any(visit(ast.Module(body=[b], type_ignores=[]), False) for b in body)
+
+    def process(fn_caller: ast.FunctionDef, cur_cls: Optional[str]):
+        caller_names = _assigned_names(fn_caller)
+
+        def rewrite(stmts):
+            out = []
+            for idx_, st in enumerate(stmts):
+                for fld in ("body", "orelse", "finalbody"):
+                    sub = getattr(st, fld, None)
+                    if isinstance(sub, list) and sub and isinstance(sub[0], ast.stmt) and not isinstance(st, (ast.FunctionDef, ast.ClassDef)):
+                        setattr(st, fld, rewrite(sub))
+                if isinstance(st, ast.Try):
+                    for hd in st.handlers:
+                        hd.body = rewrite(hd.body)
+                if isinstance(st, ast.Assign) and len(st.targets) == 1 and isinstance(st.targets[0], ast.Name) and isinstance(st.value, ast.Call) and isinstance(st.value.func, ast.Name) \
+                        and st.value.func.id == "list" and len(st.value.args) == 1 and not st.value.keywords and isinstance(st.value.args[0], ast.Call):
+                    # `t = list(g(args))`: t = []; g's body with `yield E` -> `t.append(E)`
+                    it = st.value.args[0]
+                    key = _call_name(it, cur_cls)
+                    g = gens.get(key)
+                    tname = st.targets[0].id
+                    if g is not None and g[0] is not fn_caller and not any(isinstance(x, ast.Name) and x.id == tname for x in ast.walk(it)):
+                        gfn, ps = g
+                        counter[0] += 1
+                        b = _bind_simple(gfn, ps, it, f"__g{counter[0]}", caller_names | {tname})
+                        if b is not None:
+                            pre, ren = b
+                            body = [ren.visit(copy.deepcopy(x)) for x in gfn.body if not (isinstance(x, ast.Expr) and isinstance(x.value, ast.Constant))]
+
+                            class YA(ast.NodeTransformer):
+                                def visit_FunctionDef(self, node):
+                                    return node
+
+                                def visit_Expr(self, node):
+                                    if isinstance(node.value, ast.Yield):
+                                        val = node.value.value if node.value.value is not None else ast.Constant(value=None)
+                                        return ast.Expr(value=ast.Call(func=ast.Attribute(value=ast.Name(id=tname, ctx=ast.Load()), attr="append", ctx=ast.Load()), args=[val], keywords=[]))
+                                    return node
+
+                            new_body = [YA().visit(x) for x in body]
+                            out.append(ast.copy_location(ast.Assign(targets=[ast.Name(id=tname, ctx=ast.Store())], value=ast.List(elts=[], ctx=ast.Load())), st))
+                            out.extend(pre + new_body)
+                            done.append(_qual(modname, key[0], key[1]))
+                            caller_names.update(_assigned_names(ast.Module(body=pre + new_body, type_ignores=[])))
+                            continue
+                if isinstance(st, ast.For) and not st.orelse:
+                    it = st.iter
+                    # through a local bound just before to the generator call
+                    alias_stmt = None
+                    if isinstance(it, ast.Name) and out and isinstance(out[-1], ast.Assign) and len(out[-1].targets) == 1 and isinstance(out[-1].targets[0], ast.Name) \
+                            and out[-1].targets[0].id == it.id and isinstance(out[-1].value, ast.Call):
+                        uses = sum(1 for x in ast.walk(fn_caller) if isinstance(x, ast.Name) and x.id == it.id and isinstance(x.ctx, ast.Load))
+                        if uses == 1:
+                            alias_stmt = out[-1]
+                            it = alias_stmt.value
+                    if isinstance(it, ast.Call):
+                        key = _call_name(it, cur_cls)
+                        g = gens.get(key)
+                        if g is not None and g[0] is not fn_caller and not top_level_jump(st.body):
+                            gfn, ps = g
+                            counter[0] += 1
+                            b = _bind_simple(gfn, ps, it, f"__g{counter[0]}", caller_names)
+                            if b is not None:
+                                pre, ren = b
+                                body = [ren.visit(copy.deepcopy(x)) for x in gfn.body if not (isinstance(x, ast.Expr) and isinstance(x.value, ast.Constant))]
+
+                                class Y(ast.NodeTransformer):
+                                    def visit_FunctionDef(self, node):
+                                        return node
+
+                                    def visit_Expr(self, node):
+                                        if isinstance(node.value, ast.Yield):
+                                            val = node.value.value if node.value.value is not None else ast.Constant(value=None)
+                                            return [ast.Assign(targets=[copy.deepcopy(st.target)], value=val)] + copy.deepcopy(st.body)
+                                        return node
+
+                                new_body = []
+                                for x in body:
+                                    r = Y().visit(x)
+                                    new_body.extend(r if isinstance(r, list) else [r])
+                                if alias_stmt is not None:
+                                    out.pop()
+                                out.extend(pre + new_body)
+                                done.append(_qual(modname, key[0], key[1]))
+                                caller_names.update(_assigned_names(ast.Module(body=pre + new_body, type_ignores=[])))
+                                continue
+                out.append(st)
+            return out
+
+        fn_caller.body = rewrite(fn_caller.body)
+
+    for st in tree.body:
+        if isinstance(st, ast.FunctionDef):
+            process(st, None)
+        elif isinstance(st, ast.ClassDef):
+            for x in st.body:
+                if isinstance(x, ast.FunctionDef):
+                    process(x, st.name)
+    return done
+
+
+def _inline_context_managers(tree: ast.Module, modname: str, table: Set[str]) -> List[str]:
+    """`with cm(args) as NAME: BODY` with cm a new @contextmanager generator with exactly one `yield`: the manager's
+    body is written out around BODY (`yield V` -> `NAME = V; BODY`)."""
+    cms = {}
+    for (cls, fn) in _new_functions(tree, modname, table):
+        decos = [ast.unparse(d) for d in fn.decorator_list]
+        if not any(d.split(".")[-1] == "contextmanager" for d in decos) or any(d.split(".")[-1] not in ("contextmanager", "staticmethod") for d in decos):
+            continue
+        ys = _own_yields(fn)
+        if len(ys) != 1 or isinstance(ys[0], ast.YieldFrom) or not any(isinstance(x, ast.Expr) and x.value is ys[0] for x in ast.walk(fn)):
+            continue
+        if any(isinstance(x, ast.Return) for x in ast.walk(fn)) or any(isinstance(x, (ast.FunctionDef, ast.Lambda)) and x is not fn for x in ast.walk(fn)):
+            continue
+        ps = _simple_params(fn, cls is not None)
+        if ps is None:
+            continue
+        cms[(cls, fn.name)] = (fn, ps)
+    done: List[str] = []
+    if not cms:
+        return done
+    counter = [0]
+
+    def process(fn_caller: ast.FunctionDef, cur_cls: Optional[str]):
+        caller_names = _assigned_names(fn_caller)
+
+        def rewrite(stmts):
+            out = []
+            for st in stmts:
+                for fld in ("body", "orelse", "finalbody"):
+                    sub = getattr(st, fld, None)
+                    if isinstance(sub, list) and sub and isinstance(sub[0], ast.stmt) and not isinstance(st, (ast.FunctionDef, ast.ClassDef)):
+                        setattr(st, fld, rewrite(sub))
+                if isinstance(st, ast.Try):
+                    for hd in st.handlers:
+                        hd.body = rewrite(hd.body)
+                if isinstance(st, ast.With) and len(st.items) == 1 and isinstance(st.items[0].context_expr, ast.Call):
+                    call = st.items[0].context_expr
+                    key = _call_name(call, cur_cls)
+                    c = cms.get(key)
+                    var = st.items[0].optional_vars
+                    if c is not None and c[0] is not fn_caller and (var is None or isinstance(var, ast.Name)):
+                        cfn, ps = c
+                        counter[0] += 1
+                        b = _bind_simple(cfn, ps, call, f"__cm{counter[0]}", caller_names)
+                        if b is not None:
+                            pre, ren = b
+                            body = [ren.visit(copy.deepcopy(x)) for x in cfn.body if not (isinstance(x, ast.Expr) and isinstance(x.value, ast.Constant))]
+
+                            class Y(ast.NodeTransformer):
+                                def visit_Expr(self, node):
+                                    if isinstance(node.value, ast.Yield):
+                                        head = []
+                                        if var is not None:
+                                            val = node.value.value if node.value.value is not None else ast.Constant(value=None)
+                                            head = [ast.Assign(targets=[ast.Name(id=var.id, ctx=ast.Store())], value=val)]
+                                        return head + st.body
+                                    return node
+
+                            new_body = []
+                            for x in body:
+                                r = Y().visit(x)
+                                new_body.extend(r if isinstance(r, list) else [r])
+                            # `with open(p) as f: yield f` followed by `f` used as NAME: rename the manager's own handle to NAME
+                            out.extend(pre + new_body)
+                            done.append(_qual(modname, key[0], key[1]))
+                            caller_names.update(_assigned_names(ast.Module(body=pre + new_body, type_ignores=[])))
+                            continue
+                out.append(st)
+            return out
+
+        fn_caller.body = rewrite(fn_caller.body)
+
+    for st in tree.body:
+        if isinstance(st, ast.FunctionDef):
+            process(st, None)
+        elif isinstance(st, ast.ClassDef):
+            for x in st.body:
+                if isinstance(x, ast.FunctionDef):
+                    process(x, st.name)
+    return done
+
+
+def _inline_class_context_managers(tree: ast.Module, modname: str, table: Set[str]) -> List[str]:
+    """`with C(args) [as v]: BODY` with C a new class that has only __init__/__enter__/__exit__ (the exit ignores the
+    exception and does not suppress it): the object's fields become locals and the block becomes
+    init; enter; try: BODY finally: exit."""
+    base_classes = {q.split(":")[1].split(".")[0] for q in table if q.startswith(modname + ":") and "." in q.split(":")[1]}
+    cms: Dict[str, Dict[str, ast.FunctionDef]] = {}
+    for st in tree.body:
+        if not isinstance(st, ast.ClassDef) or st.name in base_classes or st.bases or st.decorator_list:
+            continue
+        ms = {x.name: x for x in st.body if isinstance(x, ast.FunctionDef)}
+        others = [x for x in st.body if not isinstance(x, ast.FunctionDef) and not (isinstance(x, ast.Expr) and isinstance(x.value, ast.Constant))]
+        if others or set(ms) - {"__init__", "__enter__", "__exit__"} or not {"__enter__", "__exit__"} <= set(ms):
+            continue
+        ok = True
+        for name, m in ms.items():
+            if m.decorator_list or m.args.vararg or m.args.kwarg or m.args.kwonlyargs or not m.args.args or m.args.args[0].arg != "self":
+                ok = False
+                break
+            if any(isinstance(x, (ast.FunctionDef, ast.Lambda, ast.Yield, ast.YieldFrom)) and x is not m for x in ast.walk(m)):
+                ok = False
+                break
+            body = [x for x in m.body if not (isinstance(x, ast.Expr) and isinstance(x.value, ast.Constant))]
+            rets = [x for x in ast.walk(m) if isinstance(x, ast.Return)]
+            if name == "__init__" and rets:
+                ok = False
+            if name == "__enter__" and not (len(rets) <= 1 and (not rets or body[-1] is rets[0])):
+                ok = False
+            if name == "__exit__":
+                if not (len(rets) <= 1 and (not rets or body[-1] is rets[0])) or any(not (r.value is None or (isinstance(r.value, ast.Constant) and r.value.value in (False, None))) for r in rets):
+                    ok = False
+                exc = {a.arg for a in m.args.args[1:]}
+                if any(isinstance(x, ast.Name) and x.id in exc for x in ast.walk(m)):
+                    ok = False
+            # `self` only as the base of an attribute (or as the value returned by __enter__)
+            for x in ast.walk(m):
+                for ch in ast.iter_child_nodes(x):
+                    if isinstance(ch, ast.Name) and ch.id == "self":
+                        if isinstance(x, ast.Attribute) and x.value is ch:
+                            continue
+                        if name == "__enter__" and isinstance(x, ast.Return):
+                            continue
+                        ok = False
+        if ok:
+            cms[st.name] = ms
+    done: List[str] = []
+    if not cms:
+        return done
+    counter = [0]
+
+    def process(fn_caller: ast.FunctionDef):
+        caller_names = _assigned_names(fn_caller)
+
+        def rewrite(stmts):
+            out = []
+            for st in stmts:
+                for fld in ("body", "orelse", "finalbody"):
+                    sub = getattr(st, fld, None)
+                    if isinstance(sub, list) and sub and isinstance(sub[0], ast.stmt) and not isinstance(st, (ast.FunctionDef, ast.ClassDef)):
+                        setattr(st, fld, rewrite(sub))
+                if isinstance(st, ast.Try):
+                    for hd in st.handlers:
+                        hd.body = rewrite(hd.body)
+                if isinstance(st, ast.With) and len(st.items) == 1 and isinstance(st.items[0].context_expr, ast.Call) and isinstance(st.items[0].context_expr.func, ast.Name) \
+                        and st.items[0].context_expr.func.id in cms and (st.items[0].optional_vars is None or isinstance(st.items[0].optional_vars, ast.Name)):
+                    call = st.items[0].context_expr
+                    cname = call.func.id
+                    ms = cms[cname]
+                    var = st.items[0].optional_vars.id if st.items[0].optional_vars is not None else None
+                    counter[0] += 1
+                    tag = f"_cm{counter[0]}"
+                    enter = ms["__enter__"]
+                    ebody = [x for x in enter.body if not (isinstance(x, ast.Expr) and isinstance(x.value, ast.Constant))]
+                    eret = ebody[-1].value if ebody and isinstance(ebody[-1], ast.Return) else None
+                    returns_self = isinstance(eret, ast.Name) and eret.id == "self"
+                    # the bound name: only `v.field` when the object itself is handed out; any use otherwise
+                    if var is not None and returns_self:
+                        bad = False
+                        for x in ast.walk(ast.Module(body=st.body, type_ignores=[])):
+                            for ch in ast.iter_child_nodes(x):
+                                if isinstance(ch, ast.Name) and ch.id == var and not (isinstance(x, ast.Attribute) and x.value is ch):
+                                    bad = True
+                        if bad:
+                            out.append(st)
+                            continue
+
+                    class Fields(ast.NodeTransformer):
+                        def __init__(self, obj):
+                            self.obj = obj
+
+                        def visit_Attribute(self, node):
+                            node = self.generic_visit(node)
+                            if isinstance(node.value, ast.Name) and node.value.id == self.obj:
+                                return ast.copy_location(ast.Name(id=f"{tag}__{node.attr}", ctx=node.ctx), node)
+                            return node
+
+                    def method_body(m, callnode):
+                        body = [x for x in m.body if not (isinstance(x, ast.Expr) and isinstance(x.value, ast.Constant))]
+                        if body and isinstance(body[-1], ast.Return):
+                            body = body[:-1]
+                        params = [a.arg for a in m.args.args[1:]]
+                        fake = ast.FunctionDef(name=m.name, args=m.args, body=body or [ast.Pass()], decorator_list=[], returns=None)
+                        if callnode is not None:
+                            b = _bind_simple(fake, params, callnode, tag, caller_names)
+                        else:
+                            b = ([], _Renamer({}, {nm: nm + tag for nm in _assigned_names(ast.Module(body=body, type_ignores=[])) if nm in caller_names}))
+                        if b is None:
+                            return None
+                        pre, ren = b
+                        return pre + [Fields("self").visit(ren.visit(copy.deepcopy(x))) for x in body]
+
+                    init_b = method_body(ms["__init__"], call) if "__init__" in ms else ([] if not call.args and not call.keywords else None)
+                    enter_b = method_body(enter, None)
+                    exit_b = method_body(ms["__exit__"], None)
+                    if init_b is None or enter_b is None or exit_b is None:
+                        out.append(st)
+                        continue
+                    block = list(st.body)
+                    if var is not None:
+                        if returns_self:
+                            block = [Fields(var).visit(x) for x in block]
+                        elif eret is not None:
+                            enter_b.append(ast.Assign(targets=[ast.Name(id=var, ctx=ast.Store())], value=Fields("self").visit(copy.deepcopy(eret))))
+                        else:
+                            enter_b.append(ast.Assign(targets=[ast.Name(id=var, ctx=ast.Store())], value=ast.Constant(value=None)))
+                    new = init_b + enter_b + [ast.Try(body=block, handlers=[], orelse=[], finalbody=exit_b or [ast.Pass()])]
+                    for x in new:
+                        ast.copy_location(x, st)
+                    out.extend(new)
+                    caller_names.update(_assigned_names(ast.Module(body=new, type_ignores=[])))
+                    done.append(f"{modname}:{cname}")
+                    continue
+                out.append(st)
+            return out
+
+        fn_caller.body = rewrite(fn_caller.body)
+
+    for st in tree.body:
+        if isinstance(st, ast.FunctionDef):
+            process(st)
+        elif isinstance(st, ast.ClassDef) and st.name not in cms:
+            for x in st.body:
+                if isinstance(x, ast.FunctionDef):
+                    process(x)
+    # drop the classes that are no longer referenced
+    for cname in sorted({d.split(":")[1] for d in done}):
+        if not any(isinstance(n, ast.Name) and n.id == cname for n in ast.walk(tree)):
+            tree.body = [s_ for s_ in tree.body if not (isinstance(s_, ast.ClassDef) and s_.name == cname)]
+    return done
+
+
+def _hoist_nested_helper_calls(tree: ast.Module, modname: str, table: Set[str]) -> bool:
+    """`f(a, helper(x))` / `return g(helper(x))` with `helper` a new multi-statement function: the inner call is bound
+    to a temporary first (it is the only non-trivial operand, so the evaluation order is unchanged) and can then be
+    inlined in statement position."""
+    new = {}
+    for (cls, fn) in _new_functions(tree, modname, table):
+        body = [x for x in fn.body if not (isinstance(x, ast.Expr) and isinstance(x.value, ast.Constant))]
+        if len(body) == 1 and isinstance(body[0], ast.Return):
+            continue  # single-expression helpers are inlined in place
+        if _own_yields(fn):
+            continue
+        new[(cls, fn.name)] = fn
+    if not new:
+        return False
+    changed = [False]
+    counter = [0]
+
+    def process(fn_caller: ast.FunctionDef, cur_cls: Optional[str]):
+        def rewrite(stmts):
+            out = []
+            for st in stmts:
+                for fld in ("body", "orelse", "finalbody"):
+                    sub = getattr(st, fld, None)
+                    if isinstance(sub, list) and sub and isinstance(sub[0], ast.stmt) and not isinstance(st, (ast.FunctionDef, ast.ClassDef)):
+                        setattr(st, fld, rewrite(sub))
+                if isinstance(st, ast.Try):
+                    for hd in st.handlers:
+                        hd.body = rewrite(hd.body)
+                val = st.value if isinstance(st, (ast.Assign, ast.Return, ast.Expr)) else None
+                if val is not None and not (isinstance(val, ast.Call) and _call_name(val, cur_cls) in new):
+                    # general form: exactly one call of a new multi-statement helper somewhere in the expression, every
+                    # other call of the expression encloses it (so it is evaluated later), no comprehension / lambda /
+                    # short-circuit on the way
+                    parents_ = {}
+                    for p_ in ast.walk(val):
+                        for c_ in ast.iter_child_nodes(p_):
+                            parents_[id(c_)] = p_
+                    inner_ = [x for x in ast.walk(val) if isinstance(x, ast.Call) and _call_name(x, cur_cls) in new and new[_call_name(x, cur_cls)] is not fn_caller]
+                    if len(inner_) == 1 and not (isinstance(val, ast.Call) and inner_[0] in list(val.args) + [k.value for k in val.keywords]):
+                        chain_ = []
+                        q_ = parents_.get(id(inner_[0]))
+                        ok_ = True
+                        while q_ is not None:
+                            chain_.append(q_)
+                            if isinstance(q_, (ast.BoolOp, ast.IfExp, ast.Lambda, ast.ListComp, ast.SetComp, ast.DictComp, ast.GeneratorExp, ast.Starred)):
+                                ok_ = False
+                            q_ = parents_.get(id(q_))
+                        others_ = [x for x in ast.walk(val) if isinstance(x, (ast.Call, ast.Yield, ast.Await, ast.NamedExpr)) and x is not inner_[0] and x not in chain_
+                                   and not any(x is y for y in ast.walk(inner_[0]))]
+                        if ok_ and not others_:
+                            counter[0] += 1
+                            tmp = f"_hoisted{counter[0]}"
+                            out.append(ast.copy_location(ast.Assign(targets=[ast.Name(id=tmp, ctx=ast.Store())], value=inner_[0]), st))
+                            par_ = parents_.get(id(inner_[0]))
+                            for fld_, v_ in ast.iter_fields(par_):
+                                if v_ is inner_[0]:
+                                    setattr(par_, fld_, ast.Name(id=tmp, ctx=ast.Load()))
+                                elif isinstance(v_, list):
+                                    for i_, e_ in enumerate(v_):
+                                        if e_ is inner_[0]:
+                                            v_[i_] = ast.Name(id=tmp, ctx=ast.Load())
+                            changed[0] = True
+                            out.append(st)
+                            continue
+                if isinstance(val, ast.Call) and _call_name(val, cur_cls) not in new:
+                    parts = list(val.args) + [k.value for k in val.keywords]
+                    inner = [a for a in parts if isinstance(a, ast.Call) and _call_name(a, cur_cls) in new and new[_call_name(a, cur_cls)] is not fn_caller]
+                    others = [a for a in parts if a not in inner]
+                    func_simple = _simple(val.func) or (isinstance(val.func, ast.Attribute) and _simple(val.func.value))
+                    if len(inner) == 1 and func_simple and all(_simple(a) or isinstance(a, ast.Constant) for a in others):
+                        counter[0] += 1
+                        tmp = f"_hoisted{counter[0]}"
+                        out.append(ast.copy_location(ast.Assign(targets=[ast.Name(id=tmp, ctx=ast.Store())], value=inner[0]), st))
+                        for i_, a in enumerate(val.args):
+                            if a is inner[0]:
+                                val.args[i_] = ast.Name(id=tmp, ctx=ast.Load())
+                        for k in val.keywords:
+                            if k.value is inner[0]:
+                                k.value = ast.Name(id=tmp, ctx=ast.Load())
+                        changed[0] = True
+                out.append(st)
+            return out
+
+        fn_caller.body = rewrite(fn_caller.body)
+
+    for st in tree.body:
+        if isinstance(st, ast.FunctionDef):
+            process(st, None)
+        elif isinstance(st, ast.ClassDef):
+            for x in st.body:
+                if isinstance(x, ast.FunctionDef):
+                    process(x, st.name)
+    return changed[0]
+
+
 def _const_getattr(tree: ast.AST) -> bool:
     """getattr(obj, "name") with a literal name and no default is the attribute access obj.name."""
     changed = [False]
@@ -1001,17 +1964,74 @@ def _const_getattr(tree: ast.AST) -> bool:
                 return ast.copy_location(ast.Attribute(value=node.args[0], attr=node.args[1].value, ctx=ast.Load()), node)
             return node
 
+        def visit_Expr(self, node):
+            self.generic_visit(node)
+            c = node.value
+            # setattr(o, "name", v) -> o.name = v   (o a plain name; object.__setattr__ is left alone)
+            if isinstance(c, ast.Call) and isinstance(c.func, ast.Name) and c.func.id == "setattr" and len(c.args) == 3 and not c.keywords and isinstance(c.args[0], ast.Name) \
+                    and isinstance(c.args[1], ast.Constant) and isinstance(c.args[1].value, str) and c.args[1].value.isidentifier():
+                changed[0] = True
+                return ast.copy_location(ast.Assign(targets=[ast.Attribute(value=c.args[0], attr=c.args[1].value, ctx=ast.Store())], value=c.args[2]), node)
+            # d.update(k1=v1, k2=v2) / d.update({"k1": v1}) -> d["k1"] = v1; d["k2"] = v2   (d a plain local name)
+            if isinstance(c, ast.Call) and isinstance(c.func, ast.Attribute) and c.func.attr == "update" and isinstance(c.func.value, ast.Name):
+                items = None
+                if c.keywords and not c.args and all(k.arg for k in c.keywords):
+                    items = [(ast.Constant(value=k.arg), k.value) for k in c.keywords]
+                elif len(c.args) == 1 and not c.keywords and isinstance(c.args[0], ast.Dict) and c.args[0].keys and all(isinstance(k, ast.Constant) and isinstance(k.value, str) for k in c.args[0].keys):
+                    items = list(zip(c.args[0].keys, c.args[0].values))
+                if items:
+                    d = c.func.value.id
+                    # the values must not read d (they are all evaluated before the first store)
+                    if not any(isinstance(x, ast.Name) and x.id == d for (_, v) in items for x in ast.walk(v)):
+                        changed[0] = True
+                        return [ast.copy_location(ast.Assign(targets=[ast.Subscript(value=ast.Name(id=d, ctx=ast.Load()), slice=k, ctx=ast.Store())], value=v), node) for (k, v) in items]
+            return node
+
     T().visit(tree)
     return changed[0]
 
 
-def _unroll_literal_loops(fn: ast.FunctionDef) -> bool:
+def _unroll_literal_loops(fn: ast.FunctionDef, consts: Optional[Dict[str, ast.expr]] = None, nts: Optional[Dict[str, List[str]]] = None) -> bool:
     """`for a, b in ((x1, y1), (x2, y2)): BODY` over a literal display of at most 6 entries -> BODY[x1,y1]; BODY[x2,y2]
     (table-driven code written out; the loop variables must not be assigned in the body, no break/continue/else)."""
     changed = [False]
 
+    consts = consts or {}
+    nts = nts or {}
+    local_stores = _assigned_names(fn) | {a.arg for a in fn.args.args + fn.args.kwonlyargs}
+
+    def record(e) -> Optional[Dict[str, ast.expr]]:
+        """field -> value of a literal `NT(a, b, c=...)` record"""
+        if isinstance(e, ast.Call) and isinstance(e.func, ast.Name) and e.func.id in nts and not any(isinstance(a, ast.Starred) for a in e.args) and all(k.arg for k in e.keywords):
+            fields = nts[e.func.id]
+            if len(e.args) > len(fields):
+                return None
+            vals = dict(zip(fields, e.args))
+            for k in e.keywords:
+                if k.arg not in fields or k.arg in vals:
+                    return None
+                vals[k.arg] = k.value
+            if len(vals) == len(fields) and all(literal(v) for v in vals.values()):
+                return vals
+        return None
+
     def literal(e) -> bool:
-        return _simple(e) or (isinstance(e, (ast.Tuple, ast.List)) and all(literal(x) for x in e.elts)) or (isinstance(e, ast.UnaryOp) and isinstance(e.operand, ast.Constant))
+        return _simple(e) or (isinstance(e, (ast.Tuple, ast.List)) and all(literal(x) for x in e.elts)) or (isinstance(e, ast.UnaryOp) and isinstance(e.operand, ast.Constant)) \
+            or record(e) is not None
+
+    class _FieldSubst(ast.NodeTransformer):
+        def __init__(self, var, vals):
+            self.var, self.vals, self.bare = var, vals, False
+
+        def visit_Attribute(self, node):
+            if isinstance(node.value, ast.Name) and node.value.id == self.var and node.attr in self.vals:
+                return copy.deepcopy(self.vals[node.attr])
+            return self.generic_visit(node)
+
+        def visit_Name(self, node):
+            if node.id == self.var:
+                self.bare = True
+            return node
 
     def rewrite(stmts):
         out = []
@@ -1020,16 +2040,47 @@ def _unroll_literal_loops(fn: ast.FunctionDef) -> bool:
                 sub = getattr(st, fld, None)
                 if isinstance(sub, list) and sub and isinstance(sub[0], ast.stmt) and not isinstance(st, (ast.FunctionDef, ast.ClassDef)):
                     setattr(st, fld, rewrite(sub))
-            if isinstance(st, ast.For) and not st.orelse and isinstance(st.iter, (ast.Tuple, ast.List)) and 1 <= len(st.iter.elts) <= 6 and all(literal(e) for e in st.iter.elts):
+            it_ = st.iter if isinstance(st, ast.For) else None
+            if isinstance(it_, ast.Name) and it_.id in consts and it_.id not in local_stores:
+                it_ = consts[it_.id]  # a module-level constant table
+            if isinstance(st, ast.For) and not st.orelse and isinstance(it_, (ast.Tuple, ast.List)) and 1 <= len(it_.elts) <= 8 and all(literal(e) for e in it_.elts):
                 tg = st.target
+                # `if C: continue` guards at the top of the body -> the rest of the body under `not C`
+                def deguard(body):
+                    for i_, b_ in enumerate(body):
+                        if isinstance(b_, ast.If) and not b_.orelse and len(b_.body) == 1 and isinstance(b_.body[0], ast.Continue):
+                            rest = deguard(body[i_ + 1:])
+                            return body[:i_] + ([ast.copy_location(ast.If(test=_negate(b_.test), body=rest, orelse=[]), b_)] if rest else [])
+                    return body
+                if any(isinstance(x, ast.Continue) for b in st.body for x in ast.walk(b)):
+                    nb = deguard(list(st.body))
+                    if not any(isinstance(x, ast.Continue) for b in nb for x in ast.walk(b)):
+                        st.body = nb
                 names = [tg.id] if isinstance(tg, ast.Name) else ([t.id for t in tg.elts] if isinstance(tg, ast.Tuple) and all(isinstance(t, ast.Name) for t in tg.elts) else None)
                 body_nodes = [x for b in st.body for x in ast.walk(b)]
                 if names and not any(isinstance(x, (ast.Break, ast.Continue, ast.FunctionDef, ast.Lambda)) for x in body_nodes) \
                         and not any(isinstance(x, ast.Name) and x.id in names and isinstance(x.ctx, (ast.Store, ast.Del)) for x in body_nodes):
                     ok = True
                     copies = []
-                    for e in st.iter.elts:
-                        if isinstance(tg, ast.Name):
+                    for e in it_.elts:
+                        rec = record(e)
+                        if rec is not None and isinstance(tg, ast.Name):
+                            body_c = []
+                            for b in st.body:
+                                fs = _FieldSubst(names[0], rec)
+                                body_c.append(fs.visit(copy.deepcopy(b)))
+                                if fs.bare:
+                                    ok = False
+                            if not ok:
+                                break
+                            copies.append(body_c)
+                            continue
+                        if rec is not None:
+                            if len(rec) != len(names):
+                                ok = False
+                                break
+                            sub = dict(zip(names, rec.values()))
+                        elif isinstance(tg, ast.Name):
                             sub = {names[0]: e}
                         elif isinstance(e, (ast.Tuple, ast.List)) and len(e.elts) == len(names):
                             sub = dict(zip(names, e.elts))
@@ -1043,6 +2094,209 @@ def _unroll_literal_loops(fn: ast.FunctionDef) -> bool:
                         changed[0] = True
                         continue
             out.append(st)
+        return out
+
+    fn.body = rewrite(fn.body)
+
+    # `{k: E for k, f in TABLE}` / `[E for x in TABLE]` over a (module-level) literal table -> the display written out
+    class Comp(ast.NodeTransformer):
+        def visit_FunctionDef(self, node):
+            return self.generic_visit(node) if node is fn else node
+
+        def _table(self, node):
+            if len(node.generators) != 1:
+                return None
+            g = node.generators[0]
+            if g.ifs or g.is_async:
+                return None
+            it = g.iter
+            if isinstance(it, ast.Name) and it.id in consts and it.id not in local_stores:
+                it = consts[it.id]
+            if not (isinstance(it, (ast.Tuple, ast.List)) and 1 <= len(it.elts) <= 8 and all(literal(e) and record(e) is None for e in it.elts)):
+                return None
+            tg = g.target
+            names = [tg.id] if isinstance(tg, ast.Name) else ([t.id for t in tg.elts] if isinstance(tg, ast.Tuple) and all(isinstance(t, ast.Name) for t in tg.elts) else None)
+            if not names:
+                return None
+            subs = []
+            for e in it.elts:
+                if isinstance(tg, ast.Name):
+                    subs.append({names[0]: e})
+                elif isinstance(e, (ast.Tuple, ast.List)) and len(e.elts) == len(names):
+                    subs.append(dict(zip(names, e.elts)))
+                else:
+                    return None
+            return subs
+
+        def visit_DictComp(self, node):
+            node = self.generic_visit(node)
+            subs = self._table(node)
+            if subs is None or any(isinstance(x, (ast.Lambda, ast.NamedExpr)) for x in ast.walk(node)):
+                return node
+            changed[0] = True
+            return ast.copy_location(ast.Dict(keys=[_Renamer(sb, {}).visit(copy.deepcopy(node.key)) for sb in subs], values=[_Renamer(sb, {}).visit(copy.deepcopy(node.value)) for sb in subs]), node)
+
+        def visit_ListComp(self, node):
+            node = self.generic_visit(node)
+            subs = self._table(node)
+            if subs is None or any(isinstance(x, (ast.Lambda, ast.NamedExpr)) for x in ast.walk(node)):
+                return node
+            changed[0] = True
+            return ast.copy_location(ast.List(elts=[_Renamer(sb, {}).visit(copy.deepcopy(node.elt)) for sb in subs], ctx=ast.Load()), node)
+
+    Comp().visit(fn)
+    return changed[0]
+
+
+def _unroll_local_dict_tables(fn: ast.FunctionDef) -> bool:
+    """A local dict used only as a table:
+
+        D = {"a": x, "b": y}; if c: D["z"] = w
+        for v in D.values(): BODY        for k, v in D.items(): BODY
+
+    is written out entry by entry (conditional entries under their condition).  Applied only when every use of D is
+    one of these forms, the conditions / values are plain names or attribute chains that are not re-bound in between,
+    and the bodies neither re-bind the loop names nor break / continue."""
+    changed = [False]
+
+    def uses(node, name):
+        return [x for x in ast.walk(node) if isinstance(x, ast.Name) and x.id == name]
+
+    def try_block(stmts: List[ast.stmt]) -> Optional[List[ast.stmt]]:
+        for i, st in enumerate(stmts):
+            if not (isinstance(st, ast.Assign) and len(st.targets) == 1 and isinstance(st.targets[0], ast.Name) and isinstance(st.value, ast.Dict) and st.value.keys
+                    and all(isinstance(k, ast.Constant) and isinstance(k.value, str) for k in st.value.keys) and all(_simple(v) for v in st.value.values)):
+                continue
+            D = st.targets[0].id
+            total_uses = len(uses(fn, D))
+            entries = [(k, v, None) for k, v in zip(st.value.keys, st.value.values)]
+            seen_uses = 1
+            plan = {}  # index -> replacement statements
+            ok = True
+            loops = 0
+            guard_names = {x.id for (_, v, _) in entries for x in ast.walk(v) if isinstance(x, ast.Name)}
+            for j in range(i + 1, len(stmts)):
+                s2 = stmts[j]
+                n_here = len(uses(s2, D))
+                if n_here == 0:
+                    if _assigned_names(s2) & guard_names:
+                        ok = False
+                        break
+                    continue
+                seen_uses += n_here
+
+                def item_store(x):
+                    return isinstance(x, ast.Assign) and len(x.targets) == 1 and isinstance(x.targets[0], ast.Subscript) and isinstance(x.targets[0].value, ast.Name) and x.targets[0].value.id == D \
+                        and isinstance(x.targets[0].slice, ast.Constant) and isinstance(x.targets[0].slice.value, str) and _simple(x.value) and n_here == 1
+
+                if loops == 0 and item_store(s2):
+                    entries.append((s2.targets[0].slice, s2.value, None))
+                    guard_names |= {x.id for x in ast.walk(s2.value) if isinstance(x, ast.Name)}
+                    plan[j] = []
+                    continue
+                if loops == 0 and isinstance(s2, ast.If) and not s2.orelse and len(s2.body) == 1 and item_store(s2.body[0]) and _simple(s2.test):
+                    entries.append((s2.body[0].targets[0].slice, s2.body[0].value, s2.test))
+                    guard_names |= {x.id for x in ast.walk(s2) if isinstance(x, ast.Name) and x.id != D}
+                    plan[j] = []
+                    continue
+                if isinstance(s2, ast.For) and not s2.orelse and len(uses(s2.iter, D)) == 1 and n_here == 1:
+                    it = s2.iter
+                    mode = None
+                    if isinstance(it, ast.Name):
+                        mode = "keys"
+                    elif isinstance(it, ast.Call) and isinstance(it.func, ast.Attribute) and isinstance(it.func.value, ast.Name) and it.func.value.id == D and not it.args and not it.keywords and it.func.attr in ("keys", "values", "items"):
+                        mode = it.func.attr
+                    tg = s2.target
+                    names = [tg.id] if isinstance(tg, ast.Name) else ([t.id for t in tg.elts] if isinstance(tg, ast.Tuple) and all(isinstance(t, ast.Name) for t in tg.elts) else None)
+                    body_nodes = [x for b in s2.body for x in ast.walk(b)]
+                    if mode is None or names is None or (mode == "items") != (len(names) == 2) or (mode != "items" and len(names) != 1) or len(entries) > 8 \
+                            or any(isinstance(x, (ast.Break, ast.Continue, ast.FunctionDef, ast.Lambda)) for x in body_nodes) \
+                            or any(isinstance(x, ast.Name) and x.id in names and isinstance(x.ctx, (ast.Store, ast.Del)) for x in body_nodes) \
+                            or (_assigned_names(ast.Module(body=s2.body, type_ignores=[])) & guard_names) \
+                            or len({k.value for (k, _, _) in entries}) != len(entries):
+                        ok = False
+                        break
+                    rep = []
+                    for (k, v, c) in entries:
+                        sub = {names[0]: k} if mode == "keys" else ({names[0]: v} if mode == "values" else {names[0]: k, names[1]: v})
+                        body = [_Renamer(sub, {}).visit(copy.deepcopy(b)) for b in s2.body]
+                        rep.extend(body if c is None else [ast.copy_location(ast.If(test=copy.deepcopy(c), body=body, orelse=[]), s2)])
+                    plan[j] = rep
+                    loops += 1
+                    continue
+                ok = False
+                break
+            if not ok or loops == 0 or seen_uses != total_uses:
+                continue
+            out = stmts[:i]
+            for j in range(i + 1, len(stmts)):
+                out.extend(plan[j] if j in plan else [stmts[j]])
+            return out
+        return None
+
+    def rewrite(stmts):
+        for st in stmts:
+            for fld in ("body", "orelse", "finalbody"):
+                sub = getattr(st, fld, None)
+                if isinstance(sub, list) and sub and isinstance(sub[0], ast.stmt) and not isinstance(st, (ast.FunctionDef, ast.ClassDef)):
+                    setattr(st, fld, rewrite(sub))
+            if isinstance(st, ast.Try):
+                for hd in st.handlers:
+                    hd.body = rewrite(hd.body)
+        for _ in range(4):
+            r = try_block(stmts)
+            if r is None:
+                break
+            stmts = r
+            changed[0] = True
+        return stmts
+
+    fn.body = rewrite(fn.body)
+    return changed[0]
+
+
+def _merge_dict_builds(fn: ast.FunctionDef) -> bool:
+    """`d = {..}; d["k"] = v; ...; return d`  ->  `return {.., "k": v}` (item stores that directly follow the display and
+    do not read d are part of the display; a dict returned right after being built needs no name)."""
+    changed = [False]
+
+    def rewrite(stmts):
+        for st in stmts:
+            for fld in ("body", "orelse", "finalbody"):
+                sub = getattr(st, fld, None)
+                if isinstance(sub, list) and sub and isinstance(sub[0], ast.stmt) and not isinstance(st, (ast.FunctionDef, ast.ClassDef)):
+                    setattr(st, fld, rewrite(sub))
+            if isinstance(st, ast.Try):
+                for hd in st.handlers:
+                    hd.body = rewrite(hd.body)
+        out = []
+        i = 0
+        while i < len(stmts):
+            st = stmts[i]
+            if isinstance(st, ast.Assign) and len(st.targets) == 1 and isinstance(st.targets[0], ast.Name) and isinstance(st.value, ast.Dict) and all(k is not None for k in st.value.keys):
+                d = st.targets[0].id
+                j = i + 1
+                while j < len(stmts):
+                    s2 = stmts[j]
+                    if isinstance(s2, ast.Assign) and len(s2.targets) == 1 and isinstance(s2.targets[0], ast.Subscript) and isinstance(s2.targets[0].value, ast.Name) and s2.targets[0].value.id == d \
+                            and isinstance(s2.targets[0].slice, ast.Constant) and not any(isinstance(x, ast.Name) and x.id == d for x in ast.walk(s2.value)) \
+                            and not any(isinstance(k, ast.Constant) and k.value == s2.targets[0].slice.value for k in st.value.keys):
+                        st.value.keys.append(s2.targets[0].slice)
+                        st.value.values.append(s2.value)
+                        changed[0] = True
+                        j += 1
+                        continue
+                    break
+                if j < len(stmts) and isinstance(stmts[j], ast.Return) and isinstance(stmts[j].value, ast.Name) and stmts[j].value.id == d:
+                    out.append(ast.copy_location(ast.Return(value=st.value), stmts[j]))
+                    changed[0] = True
+                    i = j + 1
+                    continue
+                out.append(st)
+                i = j
+                continue
+            out.append(st)
+            i += 1
         return out
 
     fn.body = rewrite(fn.body)
@@ -1128,10 +2382,40 @@ def normalize_sources(sources: Dict[str, str], table: Optional[Set[str]] = None)
             if isinstance(st, ast.ClassDef):
                 _BASES[st.name] = [b.id for b in st.bases if isinstance(b, ast.Name)]
                 _METHODS[st.name] = {x.name for x in st.body if isinstance(x, ast.FunctionDef)}
+        gen_done = _inline_generators(tree, modname, table) + _inline_context_managers(tree, modname, table)
+        cls_done = _inline_class_context_managers(tree, modname, table)
+        if cls_done:
+            changed_any = True
+            ast.fix_missing_locations(tree)
+            inlined.extend(sorted(set(cls_done)))
+        if gen_done:
+            changed_any = True
+            ast.fix_missing_locations(tree)
+            for nm_ in sorted(set(gen_done)):
+                short = nm_.split(":")[-1].split(".")[-1]
+                refs = sum(1 for n in ast.walk(tree) if (isinstance(n, ast.Name) and n.id == short) or (isinstance(n, ast.Attribute) and n.attr == short))
+                if refs == 0:
+                    tree.body = [s_ for s_ in tree.body if not (isinstance(s_, ast.FunctionDef) and s_.name == short)]
+                    for c_ in tree.body:
+                        if isinstance(c_, ast.ClassDef):
+                            c_.body = [s_ for s_ in c_.body if not (isinstance(s_, ast.FunctionDef) and s_.name == short)] or [ast.Pass()]
+                inlined.append(nm_)
+        if _hoist_nested_helper_calls(tree, modname, table):
+            changed_any = True
+            ast.fix_missing_locations(tree)
         unrolled = False
+        mod_consts: Dict[str, ast.expr] = {}
+        _seen_c: Dict[str, int] = {}
+        for st in tree.body:
+            for n_ in ast.walk(st) if not isinstance(st, (ast.FunctionDef, ast.ClassDef)) else []:
+                if isinstance(n_, ast.Name) and isinstance(n_.ctx, ast.Store):
+                    _seen_c[n_.id] = _seen_c.get(n_.id, 0) + 1
+        for st in tree.body:
+            if isinstance(st, ast.Assign) and len(st.targets) == 1 and isinstance(st.targets[0], ast.Name) and _seen_c.get(st.targets[0].id) == 1 and isinstance(st.value, (ast.Tuple, ast.List)):
+                mod_consts[st.targets[0].id] = st.value
         for st in tree.body:
             for fn_ in ([st] if isinstance(st, ast.FunctionDef) else ([x for x in st.body if isinstance(x, ast.FunctionDef)] if isinstance(st, ast.ClassDef) else [])):
-                unrolled |= _unroll_literal_loops(fn_)
+                unrolled |= _unroll_literal_loops(fn_, mod_consts, _namedtuple_table(tree))
         if unrolled:
             changed_any = True
             ast.fix_missing_locations(tree)
@@ -1195,6 +2479,21 @@ def normalize_sources(sources: Dict[str, str], table: Optional[Set[str]] = None)
                             if isinstance(c, ast.ClassDef) and c.name == cls:
                                 c.body = [s for s in c.body if not (isinstance(s, ast.FunctionDef) and s.name == name)] or [ast.Pass()]
                     inlined.append(_qual(modname, cls, name))
+        # generators handed to an (now inlined) consumer helper
+        gen_done2 = _inline_generators(tree, modname, table)
+        if gen_done2:
+            changed_any = True
+            ast.fix_missing_locations(tree)
+            for nm_ in sorted(set(gen_done2)):
+                short = nm_.split(":")[-1].split(".")[-1]
+                cls_ = nm_.split(":")[-1].split(".")[0] if "." in nm_.split(":")[-1] else None
+                refs = sum(1 for n in ast.walk(tree) if (isinstance(n, ast.Name) and n.id == short) or (isinstance(n, ast.Attribute) and n.attr == short))
+                if refs == 0:
+                    tree.body = [s_ for s_ in tree.body if not (isinstance(s_, ast.FunctionDef) and s_.name == short)]
+                    for c_ in tree.body:
+                        if isinstance(c_, ast.ClassDef):
+                            c_.body = [s_ for s_ in c_.body if not (isinstance(s_, ast.FunctionDef) and s_.name == short)] or [ast.Pass()]
+                inlined.append(nm_)
         # source-level canonical forms that do not depend on new helpers
         canon = False
         nts = {k: v for k, v in _namedtuple_table(tree).items() if _qual(modname, None, k) not in table}
@@ -1218,20 +2517,37 @@ def normalize_sources(sources: Dict[str, str], table: Optional[Set[str]] = None)
             tree = ast.parse(ast.unparse(tree))
             nts2 = {k: v for k, v in _namedtuple_table(tree).items() if _qual(modname, None, k) not in table}
             _const_getattr(tree)
+            _inline_record_constants(tree, nts2)
             for st in tree.body:
                 if isinstance(st, ast.FunctionDef):
+                    _guard_empty_iter_loops(st)
+                    _split_tuple_assigns(st)
+                    _unroll_local_dict_tables(st)
+                    _merge_dict_builds(st)
                     _inline_local_closures(st)
+                    _beta_reduce_local_functions(st)
                     _coalesce_aliases(st)
                     _canonical_loops(st)
                     _scalar_replace_records(st, nts2)
+                    if _expand_ifexp_assigns(st):
+                        _coalesce_aliases(st)
+                        _coalesce_phi(st)
                     _thread_none_flags(st)
                 elif isinstance(st, ast.ClassDef):
                     for s2 in st.body:
                         if isinstance(s2, ast.FunctionDef):
+                            _guard_empty_iter_loops(s2)
+                            _split_tuple_assigns(s2)
+                            _unroll_local_dict_tables(s2)
+                            _merge_dict_builds(s2)
                             _inline_local_closures(s2)
+                            _beta_reduce_local_functions(s2)
                             _coalesce_aliases(s2)
                             _canonical_loops(s2)
                             _scalar_replace_records(s2, nts2)
+                            if _expand_ifexp_assigns(s2):
+                                _coalesce_aliases(s2)
+                                _coalesce_phi(s2)
                             _thread_none_flags(s2)
             ast.fix_missing_locations(tree)
             out[rel] = ast.unparse(tree) + "\n"
